@@ -105,7 +105,6 @@ Proof.
   intros [F X] Hlt. split; [apply (facts_same s); auto|].
   constructor; simpl; try xfield X; intros; updall; try (xauto X);
     simpl in *; try discriminate; try congruence; xfacts X; try lia.
-  - match goal with H : In (_, n, _) (elected s) |- _ => pose proof (el_le s _ _ _ F X H) end. lia.
   - pose proof (n_term s X n). lia.
   - match goal with H : In (_, n, _) (acks s) |- _ => destruct (a_ok s X _ _ _ H) as [_ HK] end.
     split; [lia | exact HK].
